@@ -32,6 +32,8 @@ func checkC15(c *Ctx) {
 	c.Expect("C15-R7", 2)
 	c.Rule("C15-R10", "%d writes the decimal form of the number it pops (every cursor position and palette index goes out through it): strconv's form handed to the output, or a helper of the interpreter's own decided by constant evaluation for every number from -1000 to 70000")
 	c.Expect("C15-R10", 1)
+	c.Rule("C15-R11", "TGoto and TColor are right whoever else is expanding a string: the state of one expansion (buffers, stack, dynamic variables) is allocated by the call, nothing pooled or package-level but the static variables (= C07-R10)")
+	c.Expect("C15-R11", 3)
 	c.Rule("C15-R8", "the interpreter's binary operators are the ones the colour and addressing programs rely on (%< %> %= %- %+ ... : operand order, operator agreement); TColor and TGoto answer through them")
 	c.Expect("C15-R8", 10)
 	if err := tpSelfTest(); err != nil {
@@ -47,6 +49,11 @@ func checkC15(c *Ctx) {
 	c.Expect("C15-R9", 1)
 	checkLookupDoesNotRegister(c, p, "C15-R9")
 	checkDecimalOutput(c, p, "C15-R10")
+	if tp := p.Fn("terminfo:(*Terminfo).TParm"); tp != nil {
+		c.asRule("C07-R10", "C15-R11", func() { c07CallLocal(c, p, tp) })
+	} else {
+		c.Undecided("C15-R11", "TParm", "-", "not found")
+	}
 	db := buildDB(c, p)
 	c15Goto(c, p)
 	c15Addressing(c, p, db)
